@@ -98,6 +98,56 @@ func (g *Gen) List(depth int) *model.Node {
 	return l
 }
 
+// Variant draws a tree of the same shape as n with other values: most names and positions of n
+// exist in it too (some dropped, some added, lists a little shorter or longer), as in the layers
+// of one application's configuration. Merging it into n meets a container on both sides at most
+// paths, which is where merge policies differ.
+func (g *Gen) Variant(n *model.Node) *model.Node {
+	t := g.R.T
+	switch {
+	case n.K != model.KSub:
+		if n.K == model.KNil && t.Bool("variant-keeps-nil") {
+			return model.Nil()
+		}
+		return g.Prim()
+	case n.Mixed():
+		return n.Copy()
+	case len(n.A) > 0 || (len(n.D) == 0 && n.Sticky&2 != 0):
+		l := model.List()
+		for _, c := range n.A {
+			l.Push(g.Variant(c))
+		}
+		switch t.Weighted([]int{2, 1, 1}, "variant-list-length") {
+		case 1:
+			if len(l.A) > 1 {
+				l.A = l.A[:len(l.A)-1]
+			}
+		case 2:
+			if len(n.A) > 0 {
+				l.Push(g.Variant(n.A[len(n.A)-1]))
+			}
+		}
+		return l
+	}
+	d := model.Dict()
+	for _, k := range n.Keys() {
+		if len(k) != 1 || k[0] < 'a' || k[0] > 'd' {
+			continue // (a name outside the alphabet of generated inputs, which the struct forms cannot spell)
+		}
+		if len(n.D) > 1 && t.Chance(1, 6, "variant-drops-key") {
+			continue
+		}
+		d.SetD(k, g.Variant(n.D[k]))
+	}
+	if t.Chance(1, 5, "variant-adds-key") {
+		k := Names[t.Choose(len(Names), "dict-key")]
+		if _, dup := d.D[k]; !dup {
+			d.SetD(k, g.Value(g.MaxDepth))
+		}
+	}
+	return d
+}
+
 // Container draws a top-level tree (dictionary mostly, sometimes a list).
 func (g *Gen) Container() *model.Node {
 	if g.R.T.Chance(1, 6, "top-list") {
